@@ -222,6 +222,8 @@ def run_case(R, level, op, fault, k, delta, step_seed, prime, err=None, base=1_7
                 return ber.enc_community_message(1 - m["version"] if delta > 0 else 2, m["community"], m["pdu"])
             if fault == "disco" and m["version"] == 3 and m["scoped"]["pdu"]["type"] == ber.PDU_REPORT:
                 state["applied"] = True
+                if delta == 0:
+                    return None  # the discovery reply is lost: the sender's Timeout
                 out = {"msg_id": m["msg_id"] + delta, "max_size": m["max_size"], "flags": m["flags"], "sec_model": 3, "usm": {kk: v for kk, v in m["usm"].items() if not kk.startswith("_")},
                        "scoped": (m["scoped"]["ctx_engine"], m["scoped"]["ctx_name"], m["scoped"]["pdu"])}
                 return ber.enc_v3_message(out)
@@ -281,14 +283,35 @@ def run_case(R, level, op, fault, k, delta, step_seed, prime, err=None, base=1_7
         if err:
             R.mon["perturbed_error_response_refused"] += 1
     elif fault == "disco":
-        if not isinstance(val, InvalidResponseId):
+        if delta != 0 and not isinstance(val, InvalidResponseId):
             R.violation(case, "discovery reply with message id off by %d: expected InvalidResponseId, got %r" % (delta, val), None)
             return
         after = [r for r in w.agent.requests if not r.get("discovery")]
         if any("pdu" in r for r in after):
             R.violation(case, "a request followed the refused discovery reply", None)
             return
-        R.mon["discovery_msgid_refused"] += 1
+        R.mon["discovery_msgid_refused" if delta != 0 else "discovery_reply_lost"] += 1
+        # the path after the failed discovery: seconds later the same client asks again and
+        # the agent is its conformant self - the new discovery carries ids of its own and
+        # its echo is accepted
+        env.CLOCK.freeze(base + 3.0)
+        try:
+            w.set_responder(w.agent.handle)
+            w.agent.pdu_hook = None
+            w.seam.reset(budget=60)
+            w.agent.requests.clear()
+            try:
+                kind2, val2, _ = budget.run_budgeted(lambda: call(w, op), 300000, light=True)
+            except rig.BudgetExceeded:
+                kind2, val2 = "exc", "request budget exceeded"
+        finally:
+            env.CLOCK.freeze(1_700_000_000.0)
+        if kind2 == "over":
+            return
+        if kind2 != "ok" or norm(op, val2) != reference(level, op):
+            R.violation(case, "three seconds after a %s discovery the same client asked again and a conformant echoing agent was refused: %r (ids %r)" % ("refused" if delta else "lost", val2, id_pairs(w)[-2:]), None)
+            return
+        R.mon["accepted_after_a_failed_discovery"] += 1
     else:
         R.mon["community_fault_refused"] += 1
 
@@ -333,6 +356,11 @@ def run(R):
             for fault, delta in (("community", 1), ("community", -1), ("version", 1), ("version", -1), ("rid", 1), ("rid", ("abs", 0))):
                 for k in (1, 2):
                     run_case(R, "v1", op, fault, k, delta, 12345, True, 2)
+        # a failed first discovery (refused message id, lost reply), then the same client again
+        for level in rig.V3_LEVELS:
+            for op in ("get", "set", "walk", "bulkget"):
+                for delta in (0, 1, -1):
+                    run_case(R, level, op, "disco", 0, delta, None, False, None)
         # lenient walks: a foreign request-id on the first or a later response is refused
         # like anywhere else (what "warn" forgives is a device that does not advance)
         for op in ("walk-warn", "multiwalk-warn", "pywalk-warn"):
